@@ -4,7 +4,7 @@ from harness import classify_common as K
 from harness import gen_classify as G
 
 PROP = 'C03'
-MODELS = ['Model/ClassifyData.vo', 'Model/DepthView.vo']   # .vo files the generated case files import
+MODELS = ['Model/ClassifyData.vo', 'Model/DepthView.vo', 'Model/ClassifyCommand.vo']   # .vo files the generated case files import
 KEEP = {'C03'}
 
 
